@@ -37,6 +37,7 @@ func (e *Exec) execStdlibSync(fr *Frame, st *State, in ssa.CallInstruction, c *s
 		if a := argAddr(0); a != nil {
 			st.held[lockKey(a)] = true
 			st.held["r:"+lockKey(a)] = true
+			st.acquired(lockKey(a))
 			// entering the monitor: state protected by the lock may have been changed by other holders
 			e.enterMonitor(fr, st, a)
 		}
@@ -44,6 +45,7 @@ func (e *Exec) execStdlibSync(fr *Frame, st *State, in ssa.CallInstruction, c *s
 	case "sync.(*RWMutex).RLock":
 		if a := argAddr(0); a != nil {
 			st.held["r:"+lockKey(a)] = true
+			st.acquired("r:" + lockKey(a))
 			e.enterMonitor(fr, st, a)
 		}
 		return vUnit(), true
@@ -52,11 +54,13 @@ func (e *Exec) execStdlibSync(fr *Frame, st *State, in ssa.CallInstruction, c *s
 			e.leaveMonitor(fr, st, in.(ssa.Instruction), a)
 			delete(st.held, lockKey(a))
 			delete(st.held, "r:"+lockKey(a))
+			st.released(lockKey(a))
 		}
 		return vUnit(), true
 	case "sync.(*RWMutex).RUnlock":
 		if a := argAddr(0); a != nil {
 			delete(st.held, "r:"+lockKey(a))
+			st.released("r:" + lockKey(a))
 		}
 		return vUnit(), true
 	case "sync/atomic.AddInt64", "sync/atomic.AddInt32":
@@ -887,4 +891,19 @@ func (e *Exec) disciplineMap(fr *Frame, st *State, in ssa.Instruction, m ssa.Val
 		name = fr.site + "/" + fnKey(fr.fn) + "#" + name
 	}
 	e.oblige(st, name, "discipline", fd.Tags, boolStr(ok), fmt.Sprintf("%s of the contents of %s.%s requires %s to be held", kind, fd.Type, fd.Field, fd.Args[0]), in.Pos())
+}
+
+// acquired records that the lock was taken in the function under verification; every
+// return of that function must have released it again (checked in checkPosts).
+func (st *State) acquired(key string) {
+	if st.mayHeld == nil {
+		st.mayHeld = map[string]string{}
+	}
+	st.mayHeld[key] = "true"
+}
+
+func (st *State) released(key string) {
+	if _, ok := st.mayHeld[key]; ok {
+		st.mayHeld[key] = "false"
+	}
 }
